@@ -32,7 +32,7 @@ MANIFEST = dict(
          "resistance is assumed (injective H).",
     technique="Lean 4 proof for naming/ordering + cross-process differential check against the model's answers",
 )
-PROP_FILES = ["HtmlVerif/Props/C18.lean", "HtmlVerif/Props/ConstsHead.lean"]
+PROP_FILES = ["HtmlVerif/Props/C18.lean", "HtmlVerif/Props/ConstsHead.lean", "HtmlVerif/Props/SrcC18.lean"]
 WORKER = os.path.join(os.path.dirname(os.path.dirname(os.path.abspath(__file__))), "c18_worker.py")
 
 
@@ -235,6 +235,7 @@ def run(tier: str) -> int:
         impl = core.impl_many(lines)
     for l, im in zip(lines, impl):
         ck.add(l, im, nontrivial=True, tag=l.split(" ", 1)[0])
+    __import__('srctie_c18').add_src_c18(ck, ['hash_deterministic', 'head_content'])   # source tie: op srcc18 (SHA-1 = Model/Sha1.lean)
     ck.correspond(holds=False)
     if ck.driver is None:
         return ck.finish()
